@@ -336,6 +336,19 @@ def h_concrete_many_samples(ctx):
             J = fn(B, m, seed=4, **kw)
             ok = ok and bool(np.all(J[:, 0] <= 1) and np.all((J[:, 1] == 1) | (J[:, 1] == 2)) and np.all((J[:, 2] == 0) | (J[:, 2] == 3)))
     ctx.claim('every_row_is_a_support_index', bool(ok))
+    # unique sampling of almost / exactly all entries of small tensors (real code, fixed seeds)
+    oku = True
+    for n, m in (([2, 2, 2, 2], 14), ([2, 2, 2, 2], 16), ([3, 4, 2], 24), ([4, 3, 3], 30), ([2, 3], 6)):
+        Yu = [np.ones((1, k, 1)) * (1. + 0.1 * j) for j, k in enumerate(n)]
+        for seed in range(3):
+            try:
+                Iu = teneva.sample_square(Yu, m, unique=True, seed=seed)
+            except ValueError:
+                oku = False
+                continue
+            oku = oku and Iu.shape == (m, len(n)) and len({tuple(int(v) for v in row) for row in Iu}) == m
+            oku = oku and all(0 <= int(row[k]) < n[k] for row in Iu for k in range(len(n)))
+    ctx.claim('unique_rows_up_to_the_whole_tensor', bool(oku))
 
 
 def h_lhs(ctx, n, m, perm):
